@@ -284,3 +284,19 @@ func OnceDone(o *OnceState) {
 	}
 	point(tasks[cur].last, true)
 }
+
+// SyncPoint is a boosted decision point without any blocking semantics: the
+// wrappers around the non-blocking primitives (sync.Map, sync.Pool,
+// sync/atomic) call it before and after the real operation, so that another
+// task can be scheduled between two such operations of one function body
+// (check-then-act sequences written with atomics have no function entry
+// between the check and the act).
+//
+//go:norace
+func SyncPoint() {
+	if !simTask() {
+		return
+	}
+	st.AtomicPoints++
+	point(tasks[cur].last, true)
+}
